@@ -403,6 +403,7 @@ func GenFile(r *gen.R, o GenOpts) *File {
 		if !o.Plain {
 			b.UnknownFields = r.Chance(0.2)
 			b.IndexData = r.Chance(0.2)
+			b.PadVarint = r.Chance(0.15)
 			if r.Chance(0.3) {
 				b.ExtraStrings = []string{"unused-" + r.Word(), r.Str(6)}
 			}
